@@ -60,7 +60,7 @@ void zero_lane_check(const char* type, const std::vector<Pair<typename V::scalar
         unsigned z = (unsigned)(k % W);
         b[z] = 0;
         if ((k / W) % 3 == 1) b[(z + W / 2) % W] = 0;  // two zero lanes sometimes
-        bool ok = false;
+        volatile bool ok = false;
         uint32_t cls = pcls((uint64_t)a[(z + 1) % W], (uint64_t)b[(z + 1) % W], bits);
         VK_GUARDED(cls, ("zero_lane=" + std::to_string(z) + ",a=" + hex(a[(z + 1) % W]) + ",b=" + hex(b[(z + 1) % W])),
                    { auto d = avel::div(V(a), V(b)); q = avel::to_array(d.quot); rm = avel::to_array(d.rem); ok = true; });
